@@ -14,7 +14,9 @@ use std::collections::{BTreeMap, BTreeSet};
 
 pub struct C18;
 
-const EDITS: [&str; 12] = [
+const EDITS: [&str; 14] = [
+    "add_record_with_existing_name",
+    "change_record_id",
     "rename_term",
     "add_parent",
     "remove_parent",
@@ -308,6 +310,34 @@ fn apply_edit(f: &mut FactSet, edit: &str, rng: &mut Rng) -> bool {
             } else {
                 f.recs[k][i].name.push('x');
             }
+            true
+        }
+        "add_record_with_existing_name" => {
+            // a NEW record (new id) that carries the name of an existing record of the same kind
+            let k = rng.usize_below(3);
+            if f.recs[k].is_empty() {
+                return false;
+            }
+            let name = rng.pick(&f.recs[k]).name.clone();
+            let id = rng.range(200, 230) as u32;
+            if f.recs[k].iter().any(|r| r.id == id) {
+                return false;
+            }
+            f.recs[k].push(RecFact { id, name, terms: if rng.chance(1, 2) { vec![] } else { vec![*rng.pick(&ids)] } });
+            true
+        }
+        "change_record_id" => {
+            // same name and terms under another id = one record removed, one added
+            let k = rng.usize_below(3);
+            if f.recs[k].is_empty() {
+                return false;
+            }
+            let i = rng.usize_below(f.recs[k].len());
+            let id = rng.range(300, 330) as u32;
+            if f.recs[k].iter().any(|r| r.id == id) {
+                return false;
+            }
+            f.recs[k][i].id = id;
             true
         }
         "add_record" => {
